@@ -198,6 +198,17 @@ def _uses_bare(x, local):
     return False
 
 
+def _rename_local(x, old, new):
+    if isinstance(x, dict):
+        out = {k: _rename_local(v, old, new) for k, v in x.items()}
+        if out.get("l") == old and isinstance(x.get("l"), int):
+            out["l"] = new
+        return out
+    if isinstance(x, list):
+        return [_rename_local(v, old, new) for v in x]
+    return x
+
+
 def inline_call(caller_d, bi, callee_d):
     """splice callee_d into caller_d at the call terminating block bi (in place on caller_d)"""
     blk = caller_d["blocks"][bi]
@@ -245,6 +256,21 @@ def inline_call(caller_d, bi, callee_d):
             if place is not None and not any(_uses_bare(nb, pl) for nb in new_blocks):
                 new_blocks = [_subst_deref(nb, pl, place) for nb in new_blocks]
                 done = True
+        if not done and a.get("move") is not None and not src["p"]:
+            # look through the temporary the argument was moved into
+            for _depth in range(3):
+                if caller_d["locals"][src["l"]].get("name"):
+                    break
+                prev = [st_ for st_ in blk["stmts"] if st_["k"] == "assign" and st_["lhs"] == {"l": src["l"], "p": []}]
+                if len(prev) != 1 or prev[0]["rv"]["k"] != "use" or prev[0]["rv"]["a"].get("move") is None or prev[0]["rv"]["a"]["move"]["p"]:
+                    break
+                src = prev[0]["rv"]["a"]["move"]
+        if not done and a.get("move") is not None and not src["p"] and caller_d["locals"][src["l"]]["ty"] == new_locals[1 + i]["ty"] \
+                and caller_d["locals"][src["l"]].get("name"):
+            # a named caller variable handed over by value (a String scratch buffer, say): the helper's parameter *is* that variable from
+            # here on (the caller cannot touch it again before re-initialising it), so the spliced code works on the caller's place
+            new_blocks = [_rename_local(nb, pl, src["l"]) for nb in new_blocks]
+            done = True
         if not done:
             blk["stmts"].append({"k": "assign", "lhs": {"l": pl, "p": []}, "rv": {"k": "use", "a": a}, "sp": sp})
             if src is not None and not src["p"]:
@@ -279,9 +305,13 @@ def normalise(F, Fn):
     if not cands:
         return []
     # drop recursive candidates (any cycle through them)
+    # (only cycles that stay among the candidates matter: a helper that calls back into a function of the reference is spliced once, the
+    # reference function is never spliced, so the process ends)
     edges, _ = callgraph.build(F)
+    sub = {k: [x for x in edges.get(k, ()) if x in cands or F.fns.get(x) is not None and F.fns[x].d.get("closure_of") in cands] for k in edges}
+    sub = {k: v for k, v in sub.items() if k in cands or (F.fns.get(k) is not None and F.fns[k].d.get("closure_of") in cands)}
     for k in list(cands):
-        if k in callgraph.reachable(edges, [x for x in edges.get(k, ())]):
+        if k in callgraph.reachable(sub, [x for x in sub.get(k, ())]):
             del cands[k]
     done = []
     # innermost helpers first: repeat until no call to a candidate remains
